@@ -235,14 +235,14 @@ fn respell(rng: &mut StdRng, p: &str, cwd: &[String], home: &str) -> String {
 }
 
 fn chaos_path(rng: &mut StdRng, existing: &[String]) -> String {
-    let odd = ["", "/", "..", "../..", "../../../../..", ".", "//", "/..", "~", "$", "${", "$NOPE/x", "~/~", "file://", "ftp:///a/../..", "\u{e9}", "/\u{65e5}\u{672c}/\u{1d11e}", "/a b", "/a/./../a//b/"];
+    let odd = ["", "/", "..", "../..", "../../../../..", ".", "//", "/..", "~", "$", "${", "$NOPE/x", "~/~", "file://", "ftp:///a/../..", "\u{e9}", "/\u{65e5}\u{672c}/\u{1d11e}", "/a b", "/a/./../a//b/", "/a/f\u{ff}", "\u{ff}", "/\u{ff}/b", "/b/\u{ff}x"];
     let r = rng.gen_range(0..10);
     if r < 5 || existing.is_empty() {
         return odd[rng.gen_range(0..odd.len())].to_string();
     }
     // below / beside an existing entry, whatever its kind (through links, below files)
     let base = &existing[rng.gen_range(0..existing.len())];
-    let tail = ["x", "a", "../a", "a/b", "\u{e9}", ".."][rng.gen_range(0..6)];
+    let tail = ["x", "a", "../a", "a/b", "\u{e9}", "..", "f\u{ff}"][rng.gen_range(0..7)];
     if base == "/" { format!("/{}", tail) } else { format!("{}/{}", base, tail) }
 }
 
